@@ -387,13 +387,30 @@ fn run_case(behs6: &[Beh], behs4: &[Beh], v4_first: bool, deadline: Deadline, co
         if all_refuse && deadline != Deadline::Expired && !err_text.contains("ConnectionRefused") {
             out.violation = Some(("error-not-from-an-attempt".into(), format!("every address refuses but the error is {err_text}; {descr}")));
         }
-        // failure must come within the attempts' own time limits
-        let limit = match deadline {
-            Deadline::Expired => Duration::from_millis(1500),
+        // failure must come within the attempts' own time limits; on the racing path every
+        // attempt is clamped by the overall deadline, so with a deadline T the failure is due at about T
+        let limit = match (deadline, t_ms) {
+            (Deadline::Expired, _) => Duration::from_millis(1500),
+            (_, Some(t)) if !single && t < connect_timeout_ms => Duration::from_millis(t + 450),
             _ => Duration::from_millis(connect_timeout_ms + (order.len() as u64) * 200 + 1500),
         };
         if elapsed > limit {
             out.violation = Some(("timing:failure-reported-late".into(), format!("failure took {elapsed:?} (limit {limit:?}); {descr}")));
+        }
+        // an attempt whose turn comes after the deadline must not touch the network
+        if out.violation.is_none() && !single && matches!(deadline, Deadline::Expired | Deadline::Short) {
+            let late: Vec<String> = order
+                .iter()
+                .enumerate()
+                .filter(|(pos, &x)| {
+                    let started_after = order[..*pos].iter().filter(|&&y| beh_of(y) == Beh::BlackHole).count() as u64 * 200;
+                    beh_of(x) == Beh::Accept && (deadline == Deadline::Expired || started_after >= 400) && seen(x.0, x.1).0 > 0
+                })
+                .map(|(_, &(v6, i))| format!("{}[{i}]", if v6 { "v6" } else { "v4" }))
+                .collect();
+            if !late.is_empty() {
+                out.violation = Some(("connection-made-after-the-deadline".into(), format!("{late:?} received a connection although its attempt could only start after the deadline; {descr}")));
+            }
         }
     }
     out
